@@ -5,6 +5,7 @@ jobs=$1; out=$2; P=${3:-3}
 run_one() {
   label=$1; patch=$2; shift 2
   r=$(/verif/tools/try_mutant.sh $patch "$@" 2>&1)
+  if echo "$r" | grep -a -q "PATCH DOES NOT APPLY"; then echo "$label $* NOAPPLY"; return; fi
   for p in "$@"; do
     if echo "$r" | grep -a -q "^VIOLATION property=$p"; then
       if echo "$r" | grep -a "^VIOLATION property=$p" | grep -a -v -q "no-failing-input-found"; then k="ALARM replayed"; else k="ALARM no-input"; fi
